@@ -119,11 +119,28 @@ func keyName(k pingKey) string {
 	return fmt.Sprintf("%s/p%d/g%d", k.backendAddr, k.protocol, k.routeGeneration)
 }
 
-func (w *world32) load(k pingKey) {
+func (w *world32) load(k pingKey) { w.loadVia(k, false) }
+
+// request is what resolveStatusResponse does for a route with the ping cache enabled: the lock-only fast path
+// get(key) first, the loading slow path only on a miss.
+func (w *world32) request(k pingKey) { w.loadVia(k, true) }
+
+func (w *world32) loadVia(k pingKey, fastPath bool) {
 	l := &loadRec{id: len(w.loads), key: k, fetch: -1}
 	w.loads = append(w.loads, l)
 	l.call = w.tick()
-	res := w.c.load(k, w.ttl, func() *pingResult {
+	var res *pingResult
+	if fastPath {
+		res = w.c.get(k)
+	}
+	if res == nil {
+		res = w.loadSlow(k, l)
+	}
+	w.finish(k, l, res)
+}
+
+func (w *world32) loadSlow(k pingKey, l *loadRec) *pingResult {
+	return w.c.load(k, w.ttl, func() *pingResult {
 		f := &fetchRec{id: len(w.fetches), key: k, byLoad: l.id}
 		w.fetches = append(w.fetches, f)
 		f.start = w.tick()
@@ -151,6 +168,9 @@ func (w *world32) load(k pingKey) {
 		f.end = w.tick()
 		return &pingResult{res: &packet.StatusResponse{Status: fmt.Sprintf("%s#%d", keyName(k), f.id)}}
 	})
+}
+
+func (w *world32) finish(k pingKey, l *loadRec, res *pingResult) {
 	l.ret = w.tick()
 	if res == nil || res.res == nil {
 		w.x.Fail("load-returned-nil", "load #%d of %s returned nil", l.id, keyName(k))
@@ -275,6 +295,53 @@ func scenarios32() []schedrun.Scenario {
 			x.Go("clock", func() { w.jump(); w.load(keyA) })
 			x.Go("r", func() { w.reset() })
 			x.AtEnd(func() { w.load(keyA); w.oracle(nil) })
+		}},
+		// the same races with requests that take the fast path get(key) before the loading path, as the real
+		// resolveStatusResponse does
+		{Name: "fast-path/2-requests-vs-reset-then-request", Quick: 2, Thorough: 3, Body: func(x *sched.X) {
+			w := newWorld32(x)
+			x.Go("l1", func() { w.request(keyA) })
+			x.Go("l2", func() { w.request(keyA) })
+			x.Go("r", func() { w.reset(); w.request(keyA) })
+			x.AtEnd(func() { w.request(keyA); w.oracle(nil) })
+		}},
+		{Name: "fast-path/warm-cache-reset-2-requests", Quick: 2, Thorough: 3, Body: func(x *sched.X) {
+			w := newWorld32(x)
+			w.request(keyA)
+			x.Go("l1", func() { w.request(keyA) })
+			x.Go("r", func() { w.reset() })
+			x.Go("l2", func() { w.request(keyA); w.request(keyA) })
+			x.AtEnd(func() { w.request(keyA); w.oracle(nil) })
+		}},
+		{Name: "fast-path/other-keys-and-reset", Quick: 2, Thorough: 3, Body: func(x *sched.X) {
+			w := newWorld32(x)
+			w.request(keyA)
+			w.request(keyAg)
+			x.Go("l1", func() { w.request(keyA) })
+			x.Go("l2", func() { w.request(keyA2); w.request(keyAg) })
+			x.Go("r", func() { w.reset() })
+			x.AtEnd(func() { w.request(keyA); w.request(keyA2); w.request(keyAg); w.oracle(nil) })
+		}},
+		{Name: "fast-path/no-reset-single-fetch", Quick: 3, Thorough: 4, Body: func(x *sched.X) {
+			w := newWorld32(x)
+			x.Go("l1", func() { w.request(keyA); w.request(keyA) })
+			x.Go("l2", func() { w.request(keyA) })
+			x.Go("l3", func() { w.request(keyA2) })
+			x.AtEnd(func() { w.request(keyA); w.oracle(map[pingKey]int{keyA: 1, keyA2: 1}) })
+		}},
+		{Name: "fast-path/ttl-expiry", Quick: 3, Thorough: 6, Body: func(x *sched.X) {
+			w := newWorld32(x)
+			x.Go("l1", func() { w.request(keyA); w.request(keyA) })
+			x.Go("clock", func() { w.jump(); w.request(keyA) })
+			x.AtEnd(func() { w.request(keyA); w.oracle(nil) })
+		}},
+		{Name: "fast-path/ttl-expiry-and-reset", Quick: 2, Thorough: 3, Body: func(x *sched.X) {
+			w := newWorld32(x)
+			w.request(keyA)
+			x.Go("l1", func() { w.request(keyA) })
+			x.Go("clock", func() { w.jump(); w.request(keyA) })
+			x.Go("r", func() { w.reset() })
+			x.AtEnd(func() { w.request(keyA); w.oracle(nil) })
 		}},
 	}
 }
